@@ -421,17 +421,35 @@ def q_lay(lay, ql):
     return lay
 
 
-def e_array(S, qshape, *qlists, qtag="dyn", lay=None):
+def e_array(S, qshape, *qlists, qtag="dyn", lay=None, lays=None):
+    """`lays`: one layout per query array (x, y) instead of a common one"""
     fmt = fmt_of(S)
     lay = lay or auto_lay(LAYS_ND, "q", qshape, qlists[0][:6])
+    if lays:
+        return f"array {qtag} " + " ".join(t_ndarr(qshape, ql, fmt, l_) for ql, l_ in zip(qlists, lays))
     return f"array {qtag} " + " ".join(t_ndarr(qshape, ql, fmt, q_lay(lay, ql)) for ql in qlists)
 
 
-def e_ainto(S, qshape, bufshape, *qlists, qtag="dyn", lay=None, blay=None):
+def e_ainto(S, qshape, bufshape, *qlists, qtag="dyn", lay=None, blay=None, lays=None):
     fmt = fmt_of(S)
     lay = lay or auto_lay(LAYS_ND, "q", qshape, qlists[0][:6])
     blay = blay or auto_lay(LAYS_ND, "b", bufshape, qlists[0][:6])
+    if lays:
+        return f"ainto {qtag} " + " ".join(t_ndarr(qshape, ql, fmt, l_) for ql, l_ in zip(qlists, lays)) + " " + t_buf(bufshape, blay)
     return f"ainto {qtag} " + " ".join(t_ndarr(qshape, ql, fmt, q_lay(lay, ql)) for ql in qlists) + " " + t_buf(bufshape, blay)
+
+
+def transpose_last2(qshape, ql):
+    """logical contents with the last two axes exchanged (they have equal length)"""
+    k = qshape[-1]
+    assert len(qshape) >= 2 and qshape[-2] == k
+    out = list(ql)
+    blocks = len(ql) // (k * k)
+    for b in range(blocks):
+        for i in range(k):
+            for j in range(k):
+                out[b * k * k + i * k + j] = ql[b * k * k + j * k + i]
+    return out
 
 
 def pick_dims(rng, data_rank, qrank=None):
